@@ -1,8 +1,8 @@
 CONSTANTS
   HDR = 2
-  MaxN = 2
-  MaxLen = 4
-  MaxLen3 = 3
+  MaxN = 3
+  MaxLen = 3
+  MaxLen3 = 2
   devs = {}
   Total <- MCTotal
   TooLarge <- MCTooLarge
